@@ -223,6 +223,24 @@ func registerLife(prop, title string) {
 					}
 				}
 			}
+			if prop == "C02" {
+				// scope initializers of a provider whose COLLECTION is edited after Build (initializers and
+				// services removed from it): every scope the provider creates afterwards still runs each
+				// initializer exactly once
+				ispec := kit.Spec{Regs: []kit.Reg{
+					{ID: 0, Life: "singleton", Outs: []kit.Out{{T: "D0"}}},
+					{ID: 1, Life: "scoped", Kind: "void", Name: "i1", In: true, Deps: []kit.Dep{{T: "D0"}, {T: "void", Key: "i2"}}}, // ordered after i2, which is registered later
+					{ID: 2, Life: "scoped", Kind: "void", Name: "i2"},
+					{ID: 3, Life: "scoped", Kind: "voiderr", Name: "i3", Deps: []kit.Dep{{T: "P0"}}},
+					{ID: 4, Life: "scoped", Outs: []kit.Out{{T: "P0"}}},
+				}}
+				im := NewModel(&ispec)
+				jobs = append(jobs, (&histCfg{Name: "C02-hist/initializers-collection-edited-after-build", Spec: ispec,
+					Probes: []Op{{Kind: "get", T: "P0"}}, MaxScopes: 3, Depth: depth4(tier), NoProvOps: true,
+					Extra:  []Op{{Kind: "coll-remove", T: "void", Key: "i1"}, {Kind: "coll-remove", T: "void", Key: "i2"}, {Kind: "coll-remove", T: "P0"}},
+					Final:  []Op{{Kind: "close", Scope: ""}, {Kind: "settle"}},
+					Oracle: func(e *Env, s *vsched.Sched, h []Op) []Finding { return filterClauses(prop, lifeOracle(e, im)) }}).jobs()...)
+			}
 			if prop == "C03" || prop == "C02" {
 				// groups whose members have different lifetimes, in every registration order of
 				// {transient, scoped, singleton}: the group is requested repeatedly in one scope
